@@ -368,13 +368,17 @@ int fp_prime_get_2ad(void) {
 }
 
 void fp_prime_set_dense(const bn_t p) {
-#if FP_RDC == QUICK || !defined(STRIP)
+#if FP_RDC == QUICK
+	/* Sparse-form reduction cannot work with a dense modulus; refuse it before
+	 * any constant is derived with the reduction of a previous prime. */
+	(void)p;
+	RLC_THROW(ERR_NO_CONFIG);
+#else
+#if !defined(STRIP)
 	/* A dense modulus has no sparse form; forget the one of a previous prime. */
 	core_get()->sps_len = 0;
 #endif
 	fp_prime_set(p);
-#if FP_RDC == QUICK
-	RLC_THROW(ERR_NO_CONFIG);
 #endif
 }
 
